@@ -185,8 +185,10 @@ def generate(rng, tier, boost):
     zero = b'\x00' * 32
     ns = list(range(0, 13)) + [16, 17, 31, 32, 33, 64, 65] + ([127, 128, 129, 255, 256, 257] if big else [])
     for n in ns:
-        for rep in range(12 if (big and n < 13) else 1):
+        for rep in range(12 if (big and n < 13) else (5 if 1 <= n <= 4 else 1)):
             wmode = rng.choice(['none', 'some', 'some', 'all', 'coinbase-only'])
+            if not (big and n < 13) and 1 <= n <= 4:
+                wmode = ['none', 'some', 'all', 'coinbase-only', 'coinbase-only'][rep]      # every witness layout on the smallest blocks
             txs = []
             for i in range(n):
                 w = {'none': False, 'some': None, 'all': True, 'coinbase-only': i == 0}[wmode]
